@@ -1,5 +1,5 @@
 """Shared generator + reference model for Table (C02) and Tree (C03) op sequences."""
-import json, os, functools
+import json, os, functools, math
 from hypothesis import strategies as st
 from .. import gen
 from ..vm import Prog, lit_repr, expect_ok, expect_exc
@@ -8,6 +8,13 @@ from ..core import Result, HarnessBug
 M = 5 * 11 * 23 * 53 * 101 * 197 * 389 * 683 * 1259      # same residue modulo every table size up to 1259
 PRIMES = [0, 1, 5, 11, 23, 53, 101, 197, 389, 683, 1259, 2417, 4733, 9371]
 _STRKEYS = json.load(open(os.path.join(os.path.dirname(__file__), "..", "data", "strkeys.json")))
+
+
+_TSIZE = {"Int": 8, "String": 8, "Probe": 24, "Blob": 16, "Tri": 3, "Blob20": 20}
+
+
+def _tsize(t):
+    return _TSIZE[t]
 
 
 def ideal_size(n):
@@ -63,8 +70,24 @@ def probe_universe(draw, lo=6, hi=16):
     return ["p:%d" % k for k in ks]
 
 
+@st.composite
+def tri_universe(draw, lo=6, hi=16):
+    """3-byte plain-struct keys (size not a multiple of 8; default byte-wise cmp / hash); first byte never 0xf0 (filler keys)"""
+    n = draw(st.integers(lo, hi))
+    keys = []
+    while len(keys) < n:
+        if draw(st.integers(0, 9)) <= 5:
+            b = bytes([draw(st.sampled_from([0x00, 0x01, 0x61, 0x7f, 0x80, 0xef])), draw(st.sampled_from([0x00, 0x61, 0xff])),
+                       draw(st.integers(0, 255))])
+        else:
+            b = draw(st.binary(min_size=3, max_size=3))
+        if b[0] != 0xf0 and b.hex() not in keys:
+            keys.append(b.hex())
+    return ["c:" + k for k in keys]
+
+
 def universe(kt, lo=6, hi=16):
-    return {"Int": int_universe, "String": str_universe, "Probe": probe_universe}[kt](lo, hi)
+    return {"Int": int_universe, "String": str_universe, "Probe": probe_universe, "Tri": tri_universe}[kt](lo, hi)
 
 
 def values(vt, uni=None):
@@ -82,6 +105,13 @@ def values(vt, uni=None):
         return st.integers(0, 9).map(lambda v: "p:%d" % v)
     if vt == "Blob":
         return st.integers(0, 9).map(lambda v: "b:" + ("%02x" % (v + 1)) * 16)
+    if vt == "Tri":
+        base = st.sampled_from(["000000", "0000ff", "610000", "ff00ff", "7f8081", "ffffff"]).map(lambda h: "c:" + h)
+        if uni:
+            return st.one_of(base, st.sampled_from(uni))
+        return base
+    if vt == "Blob20":
+        return st.integers(0, 9).map(lambda v: "b20:" + ("%02x" % (v + 0x11)) * 19 + "%02x" % v)
     raise HarnessBug(vt)
 
 
@@ -89,18 +119,29 @@ def key_order(lit):
     """reference order of a key literal"""
     if lit.startswith("i:") or lit.startswith("p:"):
         return int(lit[2:])
-    if lit.startswith("s:"):
+    if lit.startswith("s:") or lit.startswith("c:"):
         return bytes.fromhex(lit[2:])
     raise HarnessBug(lit)
 
 
 # ---- op sequences ---------------------------------------------------------------------
 
+BASE_TYPES = [("Int", "Int"), ("Int", "Int"), ("String", "String"), ("Probe", "Probe"), ("String", "Int"), ("Int", "String"),
+              ("Int", "Probe"), ("Probe", "Int"), ("Int", "Blob"), ("String", "Blob")]
+# extras: plain structs whose size is not a multiple of 8 (Tri 3 bytes, Blob20 20 bytes) as keys and values
+EXTRA_TYPES = [("Tri", "Tri"), ("Tri", "Int"), ("Int", "Tri"), ("Tri", "Blob20"), ("String", "Blob20"), ("Probe", "Tri")]
+DETOUR_K = ["Int", "String", "Probe", "Tri"]
+DETOUR_V = ["Int", "String", "Probe", "Blob", "Tri", "Blob20"]
+
+
 @st.composite
-def map_case(draw, kind):
+def map_case(draw, kind, extras=False):
+    """extras=False: the generator every user of this module relies on (C05 C10 C12 C18).  extras=True (C02 C03) adds:
+    odd-sized key/value types, constructor-with-pairs (`renew`), set with a value that lives in the same container
+    (`valfrom`), assign onto a holder that was retyped just before (`detour`), Table resize far above / below len
+    (`strict`), bulk fill / drain in permuted orders, comparison counting (case["x"]), first phase biased to inserting."""
     # key and value types of equal and of different sizes (Int/String 8 bytes, Blob 16, Probe 24)
-    kt, vt = draw(st.sampled_from([("Int", "Int"), ("Int", "Int"), ("String", "String"), ("Probe", "Probe"), ("String", "Int"), ("Int", "String"),
-                                   ("Int", "Probe"), ("Probe", "Int"), ("Int", "Blob"), ("String", "Blob")]))
+    kt, vt = draw(st.sampled_from(BASE_TYPES + (EXTRA_TYPES if extras else [])))
     if kind == "Tree":
         uni = draw(universe(kt, 6, 40))
     else:
@@ -110,8 +151,16 @@ def map_case(draw, kind):
     ops = []
     present = set()        # universe indices currently bound (tracked so that removals mostly hit present keys)
     nphase = draw(st.integers(1, 5))
-    for _ in range(nphase):
-        ph = draw(st.sampled_from(["ins", "ins", "del", "mixed", "mixed", "drain", "special", "bulk"]))
+    phases = ["ins", "ins", "del", "mixed", "mixed", "drain", "special", "bulk"]
+    if extras:
+        phases = phases + ["renew", "special", "mixed"]
+    for pi in range(nphase):
+        if extras and pi == 0 and draw(st.integers(0, 3)) > 0:
+            ph = draw(st.sampled_from(["ins", "ins", "bulk", "renew", "mixed"]))      # mostly start by filling
+        else:
+            ph = draw(st.sampled_from(phases))
+        if extras and ph in ("del", "drain") and not present and draw(st.integers(0, 3)) > 0:
+            ph = "ins"                                # removing from a container that holds no universe key: mostly fill instead
         if ph in ("ins", "del", "drain"):
             order = draw(st.sampled_from(["asc", "desc", "alt", "rand", "univ"]))
             idx = list(range(nk))
@@ -149,7 +198,14 @@ def map_case(draw, kind):
                 if o == "rem" and present and draw(st.integers(0, 3)) > 0:
                     i = draw(st.sampled_from(sorted(present)))
                 if o == "set":
-                    ops.append(["set", i, draw(vals), draw(st.sampled_from(["stack", "stack", "heap"]))])
+                    v = draw(vals)
+                    form = draw(st.sampled_from(["stack", "stack", "heap"] + (["valfrom"] if extras else [])))
+                    if form == "valfrom":
+                        # the value argument is the embedded value of another key of the same container: set(t, k, get(t, k2))
+                        j = draw(st.sampled_from(sorted(present))) if present and draw(st.integers(0, 4)) > 0 else draw(st.integers(0, nk - 1))
+                        ops.append(["set", i, v, "valfrom", j])
+                    else:
+                        ops.append(["set", i, v, form])
                     present.add(i)
                 elif o == "rem":
                     ops.append(["rem", i])
@@ -157,17 +213,28 @@ def map_case(draw, kind):
                 else:
                     ops.append([o, i, draw(st.sampled_from(["stack", "heap", "aliaskey", "aliasval"]))])
         elif ph == "special":
-            o = draw(st.sampled_from(["clear", "copy", "assign", "reserve"]))
+            o = draw(st.sampled_from(["clear", "copy", "assign", "reserve"] + (["assign", "reserve"] if extras else [])))
             if o == "assign":
                 src_kind = draw(st.sampled_from(["Table", "Tree"]))
                 # the source never sees an updating set (unique keys): its own correctness is not the subject
                 pairs = draw(st.lists(st.tuples(st.integers(0, nk - 1), vals), max_size=10, unique_by=lambda p: p[0]))
-                ops.append(["assign", src_kind, [[i, v] for (i, v) in pairs]])
+                op = ["assign", src_kind, [[i, v] for (i, v) in pairs]]
+                if extras and draw(st.booleans()):
+                    # the holder is first assigned from a map of other key / value types (other slot and node sizes)
+                    kt2, vt2 = draw(st.tuples(st.sampled_from(DETOUR_K), st.sampled_from(DETOUR_V)).filter(lambda p: p != (kt, vt)))
+                    op.append([draw(st.sampled_from(["Table", "Tree"])), kt2, vt2, draw(st.sampled_from([0, 1, 3, 7, 12, 30]))])
+                ops.append(op)
                 present = set(i for (i, v) in pairs)
             elif o == "reserve":
                 if kind == "Table":
-                    n_ = draw(st.integers(0, 60))
-                    ops.append(["reserve", n_])
+                    if extras:
+                        # "strict": a count below len is issued too (refused or ignored, bindings unchanged); far above len as well
+                        # (a negative count -d stands for len-d, resolved when the program is built)
+                        n_ = draw(st.one_of(st.integers(0, 60), st.integers(1, 12), st.integers(-6, -1), st.integers(61, 1300)))
+                        ops.append(["reserve", n_, "strict"])
+                    else:
+                        n_ = draw(st.integers(0, 60))
+                        ops.append(["reserve", n_])
                     if n_ == 0:
                         present = set()
                 else:
@@ -177,15 +244,40 @@ def map_case(draw, kind):
                 ops.append([o])
                 if o == "clear":
                     present = set()
+        elif ph == "renew":
+            # the container is replaced by one built with the constructor's initial bindings: new(Table, K, V, k1, v1, ...)
+            pairs = draw(st.lists(st.tuples(st.integers(0, nk - 1), vals), max_size=nk, unique_by=lambda p: p[0]))
+            ops.append(["renew", [[i, v] for (i, v) in pairs], draw(st.sampled_from([0, 0, 5, 30, 90]))])
+            present = set(i for (i, v) in pairs)
         elif ph == "bulk":
             # filler keys outside the universe push the container through several sizes while the
             # universe keys stay resident
             cnt = draw(st.sampled_from([8, 20, 45, 90, 180]))
-            ops.append(["bulk_set", cnt])
-            if draw(st.booleans()):
-                ops.append(["bulk_rem", cnt])
+            if extras:
+                # fill / drain order: index (off + t*step) mod cnt (ascending, descending and strided permutations)
+                ops.append(["bulk_set", cnt, draw(st.sampled_from([1, 1, -1, 7, 11, 13, 37])), draw(st.integers(0, 7))])
+                if draw(st.booleans()):
+                    ops.append(["bulk_rem", cnt, draw(st.sampled_from([1, -1, -1, 7, 11, 13, 37])), draw(st.integers(0, 7))])
+            else:
+                ops.append(["bulk_set", cnt])
+                if draw(st.booleans()):
+                    ops.append(["bulk_rem", cnt])
     pmode = draw(st.integers(0, 3)) if kt == "Probe" else 0
-    return {"kind": kind, "kt": kt, "vt": vt, "uni": uni, "pmode": pmode, "ops": ops[:70]}
+    case = {"kind": kind, "kt": kt, "vt": vt, "uni": uni, "pmode": pmode, "ops": ops[:70]}
+    if extras:
+        case["x"] = 1
+    return case
+
+
+def bulk_order(op):
+    """index sequence of a bulk op: [name, cnt] -> 0..cnt-1; [name, cnt, step, off] -> (off + t*step) mod cnt"""
+    cnt = op[1]
+    if len(op) <= 2:
+        return list(range(cnt))
+    step, off = op[2] % cnt, op[3] % cnt
+    if math.gcd(step, cnt) != 1:
+        step = 1
+    return [(off + t * step) % cnt for t in range(cnt)]
 
 
 def filler_key(kt, j):
@@ -193,6 +285,8 @@ def filler_key(kt, j):
         return "i:%d" % (1000003 + j * 7)
     if kt == "String":
         return "s:" + ("f%dz" % j).encode().hex()
+    if kt == "Tri":
+        return "c:f0%04x" % j
     return "p:%d" % (1000 + j)
 
 
@@ -203,6 +297,10 @@ def filler_val(vt, j):
         return "i:%d" % (j % 5)
     if vt == "String":
         return "s:" + ("v%d" % (j % 5)).encode().hex()
+    if vt == "Tri":
+        return "c:" + ("%02x" % (0xb0 + j % 5)) * 3
+    if vt == "Blob20":
+        return "b20:" + ("%02x" % (0xc0 + j % 5)) * 20
     return "p:%d" % (j % 5)
 
 
@@ -240,6 +338,36 @@ class MapRun:
                       "wrap": False, "rehash": 0, "last_nslots": None}
         self.nfill = 0
         self.probe_all = probe_all
+        self.x = bool(case.get("x"))                                   # extras (see map_case)
+        self.count = self.x and self.kind == "Tree" and self.kt == "Probe"      # count key comparisons per operation
+        self.probe_used = False
+        self.maxcmp = (0, 0)
+
+    # -- C03 "lookups, insertions and removals stay logarithmic": Probe_Cmp calls of one operation on a tree of n nodes.
+    # The height is at most 2*log2(n+1); twice that plus slack is allowed (an implementation may compare twice per level).
+    def op_line(self, line, chk=None, n=0):
+        P = self.P
+        if not self.count:
+            P.add(line, chk)
+            return
+        lim = int(4 * math.log2(n + 2)) + 6
+        P.add("cmps")
+        P.add(line, chk)
+        st_ = self
+
+        def chk_c(o, n=n, lim=lim, line=line):
+            if not o.startswith("ok "):
+                return "cmps failed: " + o
+            c = int(o[3:])
+            if c > lim:
+                return "`%s` on a Tree of %d nodes took %d key comparisons (limit %d = 4*log2(n+2)+6): not logarithmic" % (line, n, c, lim)
+            if c * (st_.maxcmp[1] + 2) >= st_.maxcmp[0] * (n + 2) and n >= st_.maxcmp[1]:
+                st_.maxcmp = (c, n)
+            return None
+        P.add("cmps", chk_c)
+        self.events.add("cmp-counted")
+        if n >= 64:
+            self.events.add("cmp-counted-n>=64")
 
     @property
     def c(self):
@@ -339,12 +467,22 @@ class MapRun:
         o = op[0]
         if o == "set":
             k, v, form = self.uni[op[1]], op[2], op[3]
+            varg = v
+            if form == "valfrom":
+                # set(t, k, get(t, k2)) with k2 != k: the value argument lives inside the container that is being changed
+                k2 = self.uni[op[4]]
+                form = "stack"
+                if k2 in model and k2 != k:
+                    P.add("get %s %s %%%d" % (self.c, k2, self.aux + 3), expect_ok(lit_repr(model[k2])))
+                    varg = "%%%d" % (self.aux + 3)
+                    v = model[k2]
+                    form = "valfrom-" + ("update" if k in model else "insert")
             pre, a, post = self.key_arg(k, form, k in model)
             for l in pre:
                 P.add(l)
             if k in model:
                 self.flags["rem_or_update"] = True
-            P.add("set %s %s %s" % (self.c, a, v))
+            self.op_line("set %s %s %s" % (self.c, a, varg), None, len(model))
             for l in post:
                 P.add(l)
             model[k] = v
@@ -361,17 +499,23 @@ class MapRun:
                             fl["two_children_rem"] = True
                         return None if ob.startswith("ok") else "rbkids failed: " + ob
                     P.add("rbkids %s %s" % (self.c, k), chk_k)
-                P.add("rem %s %s" % (self.c, k))
+                self.op_line("rem %s %s" % (self.c, k), None, len(model))
                 del model[k]
                 self.flags["rem_or_update"] = True
             else:
-                P.add("rem %s %s" % (self.c, k), expect_exc("KeyError"))
+                self.op_line("rem %s %s" % (self.c, k), expect_exc("KeyError"), len(model))
                 self.events.add("rem-absent")
             self.check()
         elif o in ("get", "mem"):
             k, form = self.uni[op[1]], op[2]
             if form == "aliasval":
                 src = [k0 for k0 in model if model[k0] == k] if self.kt == self.vt else []
+                if not src and self.x and self.kt == self.vt:
+                    # no binding has this key as its value: look up some bound value that is a key of the universe instead
+                    alt = [k0 for k0 in model if model[k0] in self.uni]
+                    if alt:
+                        k = model[alt[0]]
+                        src = [alt[0]]
                 if not src:
                     form = "stack"
                 else:
@@ -386,12 +530,12 @@ class MapRun:
                 post = []
             if o == "get":
                 if k in model:
-                    P.add("get %s %s" % (self.c, a), expect_ok(lit_repr(model[k])))
+                    self.op_line("get %s %s" % (self.c, a), expect_ok(lit_repr(model[k])), len(model))
                 else:
-                    P.add("get %s %s" % (self.c, a), expect_exc("KeyError"))
+                    self.op_line("get %s %s" % (self.c, a), expect_exc("KeyError"), len(model))
                     self.events.add("get-absent")
             else:
-                P.add("mem %s %s" % (self.c, a), expect_ok("1" if k in model else "0"))
+                self.op_line("mem %s %s" % (self.c, a), expect_ok("1" if k in model else "0"), len(model))
             for l in post:
                 P.add(l)
             self.events.add(o + "-" + form)
@@ -402,11 +546,23 @@ class MapRun:
             self.check()
         elif o == "reserve":
             n = op[1]
+            if n < 0:
+                n = len(model) + n                     # just below len
+                if n <= 0:
+                    return
             if n == 0:
                 model.clear()
             if n == 0 or n >= len(model):
                 P.add("resize %s %d" % (self.c, n))
                 self.events.add("reserve")
+                if n > 200:
+                    self.events.add("reserve-large")
+                self.check()
+            elif len(op) > 2 and self.kind == "Table":
+                # fewer slots than bindings requested: whether this is refused (FormatError in the checked build) or ignored,
+                # the bindings stay exactly as they were
+                P.add("resize %s %d" % (self.c, n), lambda ob: None if (ob.strip() == "ok" or ob.startswith("exc ")) else "resize below len: " + ob)
+                self.events.add("reserve-below-len")
                 self.check()
         elif o == "copy":
             other = self.alt
@@ -421,6 +577,8 @@ class MapRun:
             self.check()
         elif o == "assign":
             sk, pairs = op[1], op[2]
+            if len(op) > 3 and op[3]:
+                self.detour(*op[3])
             P.add("new %%%d heap t:%s t:%s t:%s" % (self.aux, sk, self.kt, self.vt))
             src = {}
             for i, v in pairs:
@@ -433,32 +591,104 @@ class MapRun:
             model.update(src)
             self.events.add("assign-from-" + sk)
             self.flags["last_nslots"] = None
+            if self.x:
+                P.add("ktype %s" % self.c, expect_ok(self.kt))
+                P.add("vtype %s" % self.c, expect_ok(self.vt))
+            self.check()
+        elif o == "renew":
+            # replace the container by one built through the constructor's initial bindings (unique keys)
+            pairs, nfill = op[1], op[2]
+            P.add("del %s" % self.c)
+            items = [(self.uni[i], v) for i, v in pairs]
+            fill = [(filler_key(self.kt, j), filler_val(self.vt, j)) for j in range(nfill)]
+            words, src = [], {}
+            while items or fill:                       # interleaved
+                for lst in (items, fill, fill):
+                    if lst:
+                        k, v = lst.pop(0)
+                        words += [k, v]
+                        src[k] = v
+            P.add(("new %s heap t:%s t:%s t:%s " % (self.c, self.kind, self.kt, self.vt) + " ".join(words)).rstrip())
+            model.clear()
+            model.update(src)
+            self.nfill = max(self.nfill, nfill)
+            self.events.add("new-with-pairs" if src else "new-with-pairs-empty")
+            self.flags["last_nslots"] = None
             self.check()
         elif o == "bulk_set":
-            for j in range(op[1]):
+            for j in bulk_order(op):
                 fk, fv = filler_key(self.kt, j), filler_val(self.vt, j)
-                P.add("set %s %s %s" % (self.c, fk, fv))
+                self.op_line("set %s %s %s" % (self.c, fk, fv), None, len(model))
                 model[fk] = fv
             self.nfill = max(self.nfill, op[1])
             self.events.add("bulk")
+            if len(op) > 2 and op[2] % op[1] != 1:
+                self.events.add("bulk-permuted")
+            if self.count:
+                # counted lookups on the tree while it is large: both ends of the key range, the middle, an absent key
+                n = len(model)
+                for j in (0, op[1] - 1, op[1] // 2):
+                    fk = filler_key(self.kt, j)
+                    self.op_line("mem %s %s" % (self.c, fk), expect_ok("1"), n)
+                    self.op_line("get %s %s" % (self.c, fk), expect_ok(lit_repr(model[fk])), n)
+                ak = filler_key(self.kt, 5000)
+                self.op_line("mem %s %s" % (self.c, ak), expect_ok("0"), n)
+                self.op_line("get %s %s" % (self.c, ak), expect_exc("KeyError"), n)
             self.check()
         elif o == "bulk_rem":
-            for j in range(op[1]):
+            for t, j in enumerate(bulk_order(op)):
                 fk = filler_key(self.kt, j)
                 if fk in model:
-                    P.add("rem %s %s" % (self.c, fk))
+                    self.op_line("rem %s %s" % (self.c, fk), None, len(model))
                     del model[fk]
-                    if j % 16 == 5:
+                    if t % 16 == 5:
                         self.check()
             self.flags["rem_or_update"] = True
             self.check()
         else:
             raise HarnessBug("op " + o)
 
+    def detour(self, sk2, kt2, vt2, n2):
+        """the holder is assigned from a map of other key / value types first (slot / node layout changes twice)"""
+        P = self.P
+        a = "%%%d" % self.aux
+        P.add("new %s heap t:%s t:%s t:%s" % (a, sk2, kt2, vt2))
+        want = []
+        for j in range(n2):
+            fk, fv = filler_key(kt2, j), filler_val(vt2, j)
+            P.add("set %s %s %s" % (a, fk, fv))
+            want.append((lit_repr(fk), lit_repr(fv)))
+        want.sort()
+        P.add("assign %s %s" % (self.c, a), lambda ob: None if ob.startswith("ok") else "assign failed: " + ob)
+        P.add("del %s" % a)
+        P.add("ktype %s" % self.c, expect_ok(kt2))
+        P.add("vtype %s" % self.c, expect_ok(vt2))
+        P.add("len %s" % self.c, expect_ok(str(n2)))
+
+        def chk_it(o, want=want):
+            if not o.startswith("ok {"):
+                return "iteration failed: " + o
+            got = sorted(parse_pairs(o[4:-1]))
+            return None if got == want else "after a retyping assign iteration yields %s, source had %s" % (got[:12], want[:12])
+        P.add("fwdkv %s" % self.c, chk_it)
+        hook = "tchk" if self.kind == "Table" else "rbchk"
+
+        def chk_h(o):
+            if not o.startswith("ok ") or "bad=" not in o:
+                return hook + " failed: " + o
+            bad = o.split("bad=")[1].split()[0]
+            return None if bad == "-" else "invariant broken after a retyping assign: " + bad
+        P.add("%s %s" % (hook, self.c), chk_h)
+        if "Probe" in (kt2, vt2):
+            self.probe_used = True
+        self.events.add("assign-retyped")
+        if (kt2, vt2) != (self.kt, self.vt) and _tsize(kt2) + _tsize(vt2) != _tsize(self.kt) + _tsize(self.vt):
+            self.events.add("assign-retyped-other-size")
+
     def finish(self, ledger=True):
         P = self.P
         P.add("del %s" % self.c)
-        if ledger and (self.kt == "Probe" or self.vt == "Probe"):
+        if ledger and (self.kt == "Probe" or self.vt == "Probe" or self.probe_used):
             P.add("live", expect_ok("live=0 ledger=-"))
 
 
